@@ -449,6 +449,11 @@ fn run_scenario(sc: &Value, idx: usize, bin: &Path, scratch: &Path, local: bool)
     // (compared as multisets: which commands, how often - the order constraints that matter, e.g. no
     // use after removal, no image removed while a container lives, are the resource automaton's,
     // and the property does not prescribe an order between the image and the volumes)
+    // C17: one pack build per build configuration (the scenario says how many builds reach pack)
+    let n_pack = |v: &[Value]| v.iter().filter(|c| c["cmd"] == "pack-build").count();
+    if n_pack(&cmds_rel) != n_pack(&want) && !packaging_failed {
+        p17.push(format!("pack build: invoked {} times for {} build configuration(s) that reach pack", n_pack(&cmds_rel), n_pack(&want)));
+    }
     let as_bag = |v: &[Value]| { let mut b: Vec<String> = v.iter().map(|c| c.to_string()).collect(); b.sort(); b };
     if as_bag(&cmds_rel) != as_bag(&want) && !packaging_failed {
         let f = |v: &[Value]| v.iter().map(|c| format!("{} {}", c["cmd"].as_str().unwrap_or("?"), c["arg"].as_str().unwrap_or("?"))).collect::<Vec<_>>().join(", ");
